@@ -161,6 +161,14 @@ Proof. intros H. open_step H. cases. inj H. apply finish_disp_view; auto. Qed.
 Lemma view_DGoodbye e e' : step_opt e DGoodbye = Some e' -> disp_view e e' EGoodbye (chq e).
 Proof. intros H. open_step H. cases. inj H. apply finish_disp_view; auto. Qed.
 
+Lemma disp_done e e' ev q :
+  disp_view e e' ev q -> panicked e' = None ->
+  exists m effs, handle_event (mx e) ev = Done m effs /\ mx e' = m /\ chq e' = q /\ sent e' = sent e ++ emits effs /\ dead e' = dead e.
+Proof.
+  unfold disp_view. destruct (handle_event (mx e) ev) as [m effs|err effs|s]; [|contradiction|congruence].
+  intros (H1 & H2 & H3 & H4) _. exists m, effs. auto.
+Qed.
+
 (** * Receiving: the handler runs on [recv_mux e], which has the table and the requests of [mx e] *)
 Lemma recv_mux_view e : ports (recv_mux e) = ports (mx e) /\ outstanding (recv_mux e) = outstanding (mx e).
 Proof. unfold recv_mux. destruct (listener_alive e); prj; auto. Qed.
